@@ -70,7 +70,7 @@ var (
 	//
 	// Windows hosts will query a name on startup to prevent duplicates on the LAN
 	// https://docs.microsoft.com/en-us/previous-versions//bb878128(v=technet.10)
-	llmnrIPv4Addr = packet.Addr{MAC: packet.EthBroadcast, IP: netip.AddrFrom4([4]byte{224, 0, 0, 251}), Port: 5355}
+	llmnrIPv4Addr = packet.Addr{MAC: packet.EthBroadcast, IP: netip.AddrFrom4([4]byte{224, 0, 0, 252}), Port: 5355}
 	llmnrIPv6Addr = packet.Addr{MAC: packet.EthBroadcast, IP: netip.MustParseAddr("FF02:0:0:0:0:0:1:3"), Port: 5355}
 )
 
